@@ -102,7 +102,7 @@ fn corpus(family: &str, thorough: bool) -> Corpus {
                 v
             },
             alpha: Alpha::new(&[&[0x00, 0x0a, 0x33, 0xff], &[0x00, 0x01, 0x05, 0x0a, 0x0b, 0x0d, 0x0f, 0x10, 0x12, 0x15, 0x16, 0x17, 0x23, 0x29, 0x2a, 0x2b, 0x2c, 0x2d, 0x30, 0x33, 0x74, 0xce, 0x01], &[0x00, 0xff], &[0x00, 0x01, 0x02, 0x03, 0x04, 0x05, 0xff]], &[0x00, 0x01, 0x02, 0x03, 0xff]),
-            alpha_n: n(8, 10),
+            alpha_n: n(7, 10),
         },
         "extcontent" => Corpus {
             structs: strip(&cat::known_extensions(), 4),
@@ -581,7 +581,7 @@ fn main() {
     let mut hsink = Sink::new();
     let mut hist_states = 0;
     let mut hist_trans = 0;
-    let e0 = dx::explore(&run, &dx::s0(run.tier.pick(5, 6)), &mut hsink);
+    let e0 = dx::explore(&run, &dx::s0(run.tier.pick(4, 6)), &mut hsink);
     hist_states += e0.states;
     hist_trans += e0.transitions;
     for p in dx::s1_catalogue(thorough) {
@@ -589,7 +589,7 @@ fn main() {
         hist_states += e.states;
         hist_trans += e.transitions;
     }
-    let (h1, st1) = dx::s2(&mut hsink, 16640, false);
+    let (h1, st1) = if thorough { dx::s2(&mut hsink, 16640, false) } else { (0, 0) };
     let (h2, st2) = dx::s2(&mut hsink, 65535, false);
     // hand-built raw records of about 10 MiB as first fragments ("any sequence of calls")
     let (_h4, st4) = dx::s4(&mut hsink);
